@@ -32,13 +32,32 @@ def gen(rnd, d):
         return "%s %s" % (rnd.choice(UN), atom(rnd, d - 1))
     if k < 0.32:
         v = rnd.choice(VARS + ["(x)", "7"])
+        if rnd.random() < 0.2:
+            v = nonlvalue(rnd)
         return rnd.choice(["%s ++", "%s --", "++ %s", "-- %s"]) % v
     if k < 0.72:
         return "%s %s %s" % (atom(rnd, d - 1), rnd.choice(BIN), atom(rnd, d - 1))
     if k < 0.82:
         return "%s ? %s : %s" % (atom(rnd, d - 1), atom(rnd, d - 1), atom(rnd, d - 1))
     lhs = rnd.choice(VARS + VARS + ["(x)", "3"])
+    if rnd.random() < 0.15:
+        lhs = nonlvalue(rnd)
     return "%s %s %s" % (lhs, rnd.choice(ASG), gen(rnd, d - 1))
+
+
+def nonlvalue(rnd):
+    """a parenthesised operator expression over variables: the result of every operator is a value, never a place"""
+    a, b = rnd.choice(VARS), rnd.choice(VARS)
+    k = rnd.random()
+    if k < 0.6:
+        return "( %s %s %s )" % (a, rnd.choice(BIN), b)
+    if k < 0.75:
+        return "( %s %s )" % (rnd.choice(UN), a)
+    if k < 0.85:
+        return "( %s ? %s : %s )" % (rnd.choice(VARS + ["0", "1"]), a, b)
+    if k < 0.95:
+        return "( %s %s 1 )" % (a, rnd.choice(ASG))
+    return "( %s ++ )" % a
 
 
 def atom(rnd, d):
